@@ -7,7 +7,7 @@ from harness import detloop, clientrun, simnet, engine
 
 class C15(Prop):
     id = 'C15'
-    lean_modules = ['RSocketModel.Props.C15']
+    lean_modules = ['RSocketModel.Props.C15', 'RSocketModel.Props.C15Source']
     technique = 'Lean 4 proof (arithmetic over check/arrival times; echo in the engine model) + differential correspondence under a virtual clock'
     level_text = ('c15_echo / c15_echo_engine, c15_periodic, c15_no_false_timeout(_gaps) and c15_detects (every period, lifetime, start offsets and arrival pattern) are kernel-checked on a '
                   'model of the keepalive tasks in integer milliseconds; the model is run against a real RSocketClient whose clock (asyncio time and datetime.now) is the harness\'s virtual clock.')
